@@ -534,7 +534,8 @@ class DatesWorld(World):
         p = self._pick_period(rng)
         if p is None:
             return None
-        return {"op": "p_derive", "out": [self._name("p")], "args": {"p": p, "how": rng.choice(["add", "radd", "sub", "shift", "copy", "deepcopy", "pickle"]),
+        return {"op": "p_derive", "out": [self._name("p")], "args": {"p": p, "ntype": rng.choice([None, None, None, "int64", "int32", "uint8", "uint16"]),
+                                                                     "how": rng.choice(["add", "radd", "sub", "shift", "copy", "deepcopy", "pickle"]),
                                                                    "n": rng.choice([-13, -4, -1, 1, 2, 5, 12])}}
 
     def _gen_p_arith(self, actor, rng):
@@ -642,6 +643,9 @@ class DatesWorld(World):
         again = [(letter(p), int(p.serial)) for p in real]
         if again != got:
             bad("second iteration differs from the first")
+        back = [(letter(p), int(p.serial)) for p in reversed(real)]
+        if back != want[::-1]:
+            bad(f"reversed(span) yields {back[:4]}..., the span enumerates {want[::-1][:4]}... backwards")
         for label, end, serial in (("start", real.start, m.a), ("end", real.end, m.b)):
             if hash(end) != hash(P(m.f, serial)):
                 bad(f"{label} hashes differently from an equal, freshly built period")
@@ -1131,8 +1135,16 @@ class DatesWorld(World):
             n = a["n"]
             if not cal.valid_serial(f, s + n) or not cal.valid_serial(f, s - n):
                 return "skipped"
-            table = {"add": (lambda: p + n, s + n), "radd": (lambda: n + p, s + n), "sub": (lambda: p - n, s - n),
-                     "shift": (lambda: p.shift(n), s + n), "copy": (lambda: p.copy(), s),
+            if a.get("ntype") and (n >= 0 or not a["ntype"].startswith("uint")):
+                # the offset as a NumPy integer (an element of an integer array): the same number
+                import numpy as _np
+                n0 = n
+                n = getattr(_np, a["ntype"])(n)
+                self.probes["numpy_integer_offset"] += 1
+                if how == "radd":
+                    how = "add"        # a NumPy scalar on the left decides the operation itself
+            table = {"add": (lambda: p + n, s + int(n)), "radd": (lambda: n + p, s + int(n)), "sub": (lambda: p - n, s - int(n)),
+                     "shift": (lambda: p.shift(n), s + int(n)), "copy": (lambda: p.copy(), s),
                      "deepcopy": (lambda: __import__("copy").deepcopy(p), s),
                      "pickle": (lambda: __import__("pickle").loads(__import__("pickle").dumps(p)), s)}
             thunk, want = table[how]
